@@ -495,6 +495,46 @@ func runC03(c *Ctx) {
 		c.Ob("C03-R7", "table prefixes (h, H, b, r, l, B) and the t/n suffixes are pairwise distinct", "", okP && len(sfx) == 2, dP)
 	})
 	c.Min("C03-R7", 14)
+
+	c.Rule("C03-R9", "the legacy de-duplication pass deletes a row keyed by a hash starting with 'l' only when that hash names a live transaction", func() {
+		up := c.FnOpt("aqua:upgradeDeduplicateData$1")
+		if up == nil {
+			c.Ob("C03-R9", "legacy de-duplication goroutine found", "", false, "aqua:upgradeDeduplicateData$1 not found")
+			return
+		}
+		// `hash` is the first 32 bytes of the iterated key; a 33-byte key <hash>0x01 whose hash starts with 'l' may be a
+		// new-format lookup row of a transaction whose hash ends in 0x01 – it is rewritten/deleted only when the
+		// candidate hash resolves to a stored transaction that hashes to it
+		unlessNotL := `^108 != .*\.Key\(\)\[:32\]\[0\]$`
+		for _, callRe := range []string{`\.Delete$`, `\.Put$`} {
+			min := 3
+			if callRe == `\.Put$` {
+				min = 1
+			}
+			var sites []ssa.CallInstruction
+			for _, s := range c.Facts(up).Calls(mustRe(callRe)) {
+				// the completion marker is written after the loop (constant key): not a row operation
+				if len(s.Common().Args) > 0 && strings.Contains(c.Facts(up).tr.term(nil, s.Common().Args[0], 0), "Key()") {
+					sites = append(sites, s)
+				}
+			}
+			var states []*pstate
+			for _, s := range sites {
+				states = append(states, c.Facts(up).At(s)...)
+			}
+			c.Ob("C03-R9", "row operations "+callRe+" on the iterated key found", c.FnPos(up), len(sites) >= min, fmt.Sprintf("%d sites", len(sites)))
+			c.mustStates("C03-R9", up, "row operation "+callRe, states, []LitReq{
+				{Name: "an 'l'-prefixed candidate is touched only if it resolves to a stored transaction", Unless: unlessNotL,
+					Re: `^nil != core\.GetTransaction\(fv:[\w#]+, common\.BytesToHash\(.*\.Key\(\)\[:32\]\)\)#0$`},
+				{Name: "... whose own hash is the candidate", Unless: unlessNotL,
+					Re: `^core\.GetTransaction\(fv:[\w#]+, common\.BytesToHash\(.*\.Key\(\)\[:32\]\)\)#0\.Hash\(\)\.Bytes\(\) == .*\.Key\(\)\[:32\]$`},
+				{Name: "only keys of the old metadata shape <hash>0x01 are touched", Re: `^1 == .*\.Key\(\)\[32\]$`},
+				{Name: "only 33-byte keys are touched", Re: `^33 == len\(.*\.Key\(\)\)$`},
+				{Name: "only rows whose value decodes as lookup metadata are touched", Re: `^nil == rlp\.DecodeBytes\(.*\.Value\(\), new\(T\)\)$`},
+			})
+		}
+	})
+	c.Min("C03-R9", 12)
 }
 
 // storesInto: values stored into (elements of) the allocation.
